@@ -81,19 +81,26 @@ impl Intersectable for AABB {
     /// NaN es siempre distinto, de modo que las comparaciones con NaN son correctas
     /// Las AABB deben tener ancho > 0 en todas las dimensiones
     fn intersects(&self, ray: &Ray) -> Option<f32> {
-        let idx = 1.0 / ray.dir.x;
-        let idy = 1.0 / ray.dir.y;
-        let idz = 1.0 / ray.dir.z;
+        let mut tmin = f32::NEG_INFINITY;
+        let mut tmax = f32::INFINITY;
 
-        let t1 = (self.min.x - ray.origin.x) * idx;
-        let t2 = (self.max.x - ray.origin.x) * idx;
-        let t3 = (self.min.y - ray.origin.y) * idy;
-        let t4 = (self.max.y - ray.origin.y) * idy;
-        let t5 = (self.min.z - ray.origin.z) * idz;
-        let t6 = (self.max.z - ray.origin.z) * idz;
-
-        let tmin = t1.min(t2).max(t3.min(t4)).max(t5.min(t6));
-        let tmax = t1.max(t2).min(t3.max(t4)).min(t5.max(t6));
+        for axis in 0..3 {
+            let (o, d) = (ray.origin[axis], ray.dir[axis]);
+            let (min, max) = (self.min[axis], self.max[axis]);
+            if d == 0.0 {
+                // Rayo paralelo a las caras de este eje: solo puede cortar si el origen está entre ellas.
+                // Evita el NaN (0 * inf) que se producía cuando el origen coincide con una cara y que
+                // hacía que un elemento y la AABB que lo contiene dieran respuestas distintas
+                if o < min || o > max {
+                    return None;
+                }
+            } else {
+                let t1 = (min - o) / d;
+                let t2 = (max - o) / d;
+                tmin = tmin.max(t1.min(t2));
+                tmax = tmax.min(t1.max(t2));
+            }
+        }
 
         // Si tmax < 0 la línea interseca pero el AABB está detrás
         if tmax < 0.0 {
